@@ -137,8 +137,8 @@ mut("C20", "ghost-any-axis", E + "FEM/_mesher.py", "mask = np.isin(other_connect
 # ---------------------------------------------------------------- rules added after the first seeded round
 mut("C02", "thermal-thickness-model-dim", E + "Simulations/_thermal.py", "            if self.mesh.dim == 2:\n                thickness = thermalModel.thickness", "            if self.dim == 2:\n                thickness = thermalModel.thickness", "Thermal")
 mut("C17", "history-damage-not-stored", E + "Simulations/_phasefield.py", "            self._Set_solutions(self.ProblemTypes.damage, d_np1)\n            self.__updatedDisplacement = False\n", "", "PhaseField.Solve")
-mut("C20", "claim-lower-ranks-only", E + "FEM/_mesher.py", "*(dict_rank_nodes[r] for r in range(Nproc) if r != rank)", "*(dict_rank_nodes[r] for r in range(Nproc) if r < rank)", "claim")
-mut("C20", "claim-not-recorded", E + "FEM/_mesher.py", "            dict_rank_nodes[rank].update(nodes)\n            Nn += len(nodes)", "            Nn += len(nodes)", "claim")
+mut("C20", "claim-lower-ranks-only", E + "FEM/_mesher.py", "*(dict_rank_nodes[r] for r in range(Nproc) if r != rank)", "*(dict_rank_nodes[r] for r in range(Nproc) if r < rank)", "__Get_partitioned_groupElems")
+mut("C20", "claim-not-recorded", E + "FEM/_mesher.py", "            dict_rank_nodes[rank].update(nodes)\n            Nn += len(nodes)", "            Nn += len(nodes)", "__Get_partitioned_groupElems")
 mut("C19", "phi-slope-drop-lam", E + "Models/InElastic/_spectral.py", "    dphi_e_pg = -(w_e_pg * lam * d_e_pg).sum(axis=-1) / safe_e_pg", "    dphi_e_pg = -(w_e_pg * d_e_pg).sum(axis=-1) / safe_e_pg", "_Phi")
 mut("C19", "tangent-sign", E + "Models/InElastic/_spectral.py", "    dtheta_e_pg = -(1.0 - res.theta * res.slope) / slope_e_pg", "    dtheta_e_pg = (1.0 - res.theta * res.slope) / slope_e_pg", "Tangent")
 mut("C19", "voce-dR", E + "Models/InElastic/IsotropicHardening.py", "        lambda p: Q * b * np.exp(-b * p),", "        lambda p: Q * np.exp(-b * p),", "Voce")
@@ -410,6 +410,41 @@ def seeded_edits(props):
             if props is None or pr in props:
                 out.append(dict(prop=pr, id=f"seeded:{d}", patch=pp, file="?", old="", new="", expect=None))
     return out
+
+# ---------------------------------------------------------------- round 6: behaviour-preserving rewrites of what the new interpretive rules read
+same("C03", "r6-buffer-fill-correct-offsets", E + "Simulations/_simu.py", "        data = np.concatenate([dict_group_data[g].ravel() for g in groups])\n",
+     "        list_X_e = [np.asarray(dict_group_data[g]) for g in groups]\n        sizes = [X_e.size for X_e in list_X_e]\n        starts = [sum(sizes[:k]) for k in range(len(sizes))]\n        data = np.empty(sum(sizes), dtype=np.result_type(*list_X_e))\n        for X_e, start in zip(list_X_e, starts):\n            data[start : start + X_e.size] = X_e.ravel()\n")
+same("C03", "r6-blockwise-lookup-ceil", E + "Simulations/_simu.py", "        inv = np.searchsorted(canon, rows.astype(np.int64) * ncol + cols).astype(\n            np.int32\n        )\n",
+     "        block = 1 << 22\n        inv = np.zeros(rows.size, dtype=np.int32)\n        for b in range(-(-rows.size // block)):\n            s = slice(b * block, min((b + 1) * block, rows.size))\n            inv[s] = np.searchsorted(canon, rows[s].astype(np.int64) * ncol + cols[s])\n")
+same("C05", "r6-rhs-rebinding", E + "Simulations/_simu.py", "        b += F\n\n        if self.isNonLinear:", "        b = b + F\n\n        if self.isNonLinear:")
+same("C13", "r6-rhs-rebinding", E + "Simulations/_simu.py", "        b += F\n\n        if self.isNonLinear:", "        b = F + b\n\n        if self.isNonLinear:")
+same("C10", "r6-beam-N-dim-set", E + "FEM/Elems/_beam.py", "        N_e_pg = FeArray.asfearray(N_e_pg)\n\n        if dim > 1:\n", "        N_e_pg = FeArray.asfearray(N_e_pg)\n\n        if dim in (2, 3):\n")
+same("C16", "r6-shear-op-local-name", E + "FEM/Elems/_beam.py", "        Pglob_e_pg = self._Compute_P_e_pg(beamStructure=beamStructure)\n        B_shear = B_shear @ Pglob_e_pg\n\n        return B_shear\n", "        P = self._Compute_P_e_pg(beamStructure)\n        return B_shear @ P\n")
+same("C10", "r6-active-stress-direct-kelvin", E + "Models/HyperElastic/_laws.py", "        self.__TxT = Project_matrix_to_vector(TensorProd(T_hat, T_hat))  # (Ne, nPg, 6)\n",
+     "        Tx, Ty, Tz = np.moveaxis(np.asarray(T_hat), -1, 0)\n        c = np.sqrt(2)\n        self.__TxT = FeArray.asfearray(np.stack([Tx * Tx, Ty * Ty, Tz * Tz, c * Ty * Tz, c * Tx * Tz, c * Tx * Ty], axis=-1))\n")
+same("C11", "r6-admissible-squared-form", E + "Models/Elastic/_laws.py", "        assert np.all(np.abs(v23) < np.sqrt(E2 / E3)), \"|v23| < sqrt(E2 / E3)\"\n", "        assert np.all(v23**2 < E2 / E3), \"v23^2 < E2 / E3\"\n")
+same("C12", "r6-transpose-np-transpose", E + "FEM/_linalg.py", "            return FeArray.asfearray(np.asarray(self).transpose(axes))\n", "            return FeArray.asfearray(np.transpose(np.asarray(self), axes))\n")
+same("C12", "r6-rsub-negated-sub", E + "FEM/_field.py", "        return other - self()\n", "        return -(self() - other)\n")
+same("C13", "r6-rtruediv-local", E + "FEM/_field.py", "        return other / self()\n", "        value = self()\n        return other / value\n")
+same("C14", "r6-model-event-flags-inline", E + "Simulations/_phasefield.py", "        if isinstance(observable, _IModel):\n            self.Need_Update()\n        elif isinstance(observable, Mesh):\n            self._Check_dim_mesh_material()\n            self.Need_Update()\n",
+     "        if isinstance(observable, _IModel):\n            self.__updatedDamage = False\n            self.__updatedDisplacement = False\n        elif isinstance(observable, Mesh):\n            self._Check_dim_mesh_material()\n            self.Need_Update()\n")
+same("C15", "r6-save-folder-first", E + "Simulations/_simu.py", "        path_simu = Folder.Join(folder, f\"{filename}{suffix}.pickle\", mkdir=True)\n\n        # The folder setter handles flushing any pending in-memory iteration\n        # dicts to disk when transitioning from `folder == \"\"` to set.\n        self.folder = folder\n",
+     "        self.folder = folder\n        path_simu = Folder.Join(folder, f\"{filename}{suffix}.pickle\", mkdir=True)\n")
+same("C16", "r6-hooke-repeat", E + "Models/Elastic/_laws.py", "            C_e_pg = FeArray.broadcast(C, Ne, nPg, tensor_ndim=2)\n        else:\n            C_e_pg = FeArray.asfearray(C, True)\n\n        return C_e_pg @ Epsilon_e_pg\n",
+     "            if C.ndim == 3:\n                C = np.repeat(C[:, None], nPg, axis=1)\n            C_e_pg = FeArray.asfearray(C)\n        else:\n            C_e_pg = FeArray.asfearray(C, True)\n\n        return C_e_pg @ Epsilon_e_pg\n")
+same("C17", "r6-history-np-maximum", E + "Simulations/_phasefield.py", "            inc_H = psiP_e_pg - old_psiPlus_e_pg\n\n            elements, gaussPoints = np.where(inc_H < 0)\n\n            psiP_e_pg[elements, gaussPoints] = old_psiPlus_e_pg[elements, gaussPoints]\n",
+     "            psiP_e_pg = np.maximum(psiP_e_pg, old_psiPlus_e_pg)\n")
+same("C15", "r6-history-get-default", E + "Simulations/_phasefield.py", "            old_psiPlus_e_pg = self.__old_psiP_e_pg.get(groupElem)\n", "            old_psiPlus_e_pg = self.__old_psiP_e_pg.get(groupElem, None)\n")
+same("C17", "r6-bounds-take", E + "Simulations/Solvers.py", "        lb, ub = lb[dofsUnknown], ub[dofsUnknown]\n", "        lb = lb[dofsUnknown]\n        ub = ub[dofsUnknown]\n")
+same("C18", "r6-strain-path-convex", E + "FEM/Operators/NonLinear.py", "        C_n = state_n.Compute_C()\n        self.__C_e_pg = C_n + s * (state_np1.Compute_C() - C_n)\n", "        self.__C_e_pg = (1 - s) * state_n.Compute_C() + s * state_np1.Compute_C()\n")
+same("C19", "r6-spectral-keyword", E + "Models/InElastic/_behavior.py", "            self.__hardening,\n            self.__yield.scale,\n            self.__rate,\n            dt,\n            self._tol,\n            self._maxIter,\n        )\n", "            self.__hardening,\n            sigma_y=self.__yield.scale,\n            rate=self.__rate,\n            dt=dt,\n            tol=self._tol,\n            maxIter=self._maxIter,\n        )\n")
+same("C19", "r6-reducible-len", E + "Models/InElastic/_behavior.py", "            and not self.__kinematic\n            and not self.__branches\n", "            and len(self.__branches) == 0\n            and len(self.__kinematic) == 0\n")
+same("C20", "r6-ghost-np-any", E + "FEM/_mesher.py", "                mask = np.isin(other_connect, owned_arr).any(axis=1)\n", "                mask = np.any(np.isin(other_connect, owned_arr), axis=1)\n")
+same("C20", "r6-merge-tree-all-columns", E + "FEM/_mesh.py", "            pairs: _types.IntArray = cKDTree(all_coords).query_pairs(\n", "            pairs: _types.IntArray = cKDTree(all_coords[:, :3]).query_pairs(\n")
+
+same("C20", "r6-claim-difference-method", E + "FEM/_mesher.py", "            nodes = set(connect_r.ravel()) - otherRankNodes\n", "            nodes = set(connect_r.ravel()).difference(otherRankNodes)\n")
+same("C20", "r6-other-rank-nodes-loop", E + "FEM/_mesher.py", "            otherRankNodes = set().union(\n                *(dict_rank_nodes[r] for r in range(Nproc) if r != rank)\n            )\n", "            otherRankNodes = set()\n            for r in range(Nproc):\n                if r != rank:\n                    otherRankNodes |= dict_rank_nodes[r]\n")
+same("C20", "r6-rows-sorted-set", E + "FEM/_mesher.py", "            all_idx = np.unique(\n                np.concatenate([idx_r, np.array(list(ghost_idx), dtype=int)])\n            )\n", "            all_idx = np.array(sorted(set(idx_r.tolist()) | ghost_idx), dtype=int)\n")
 
 
 def apply_edit(root, e):
